@@ -135,6 +135,28 @@ func peEmbed(b []byte, blob []byte) ([]byte, error) {
 	return out, nil
 }
 
+// peEmbedMany replaces the certificate table by one WIN_CERTIFICATE per blob, each 8-byte aligned.
+func peEmbedMany(b []byte, blobs [][]byte) ([]byte, error) {
+	p, err := peParse(b)
+	if err != nil {
+		return nil, err
+	}
+	out := append([]byte{}, b[:p.certOff]...)
+	for _, blob := range blobs {
+		hdr := make([]byte, 8)
+		binary.LittleEndian.PutUint32(hdr, uint32(8+len(blob)))
+		binary.LittleEndian.PutUint16(hdr[4:], 0x0200)
+		binary.LittleEndian.PutUint16(hdr[6:], 0x0002)
+		out = append(out, hdr...)
+		out = append(out, blob...)
+		for len(out)%8 != 0 {
+			out = append(out, 0)
+		}
+	}
+	binary.LittleEndian.PutUint32(out[p.certDirOff+4:], uint32(len(out)-p.certOff))
+	return out, nil
+}
+
 func peBlob(b []byte) ([]byte, error) {
 	p, err := peParse(b)
 	if err != nil {
@@ -187,6 +209,22 @@ func buildPE(env *Env, v Variant) ([]*Artifact, error) {
 	if sb, err := peBlob(a.Sibling); err == nil {
 		if d, err := peEmbed(s, sb); err == nil {
 			a.Semantic = append(a.Semantic, SemMut{Class: "graft-sibling-signature", Site: "cert-table", Data: d, Assert: true, Why: "signature of a different image"})
+		}
+	}
+	// a certificate table with two entries: the file's own signature next to the
+	// sibling's (a genuine signature, by a trusted signer, of a DIFFERENT image,
+	// same digest function). Every signature in the table claims this image.
+	if sb, err := peBlob(a.Sibling); err == nil {
+		if own, err := peBlob(s); err == nil {
+			for _, order := range []struct {
+				site  string
+				blobs [][]byte
+			}{{"foreign-signature-first,own-last", [][]byte{sb, own}}, {"own-first,foreign-signature-last", [][]byte{own, sb}}} {
+				if d, err := peEmbedMany(s, order.blobs); err == nil {
+					a.Semantic = append(a.Semantic, SemMut{Class: "graft-sibling-signature", Site: "second-cert-table-entry:" + order.site, Data: d, Assert: true,
+						Why: "one of the two signatures in the table was made over another image"})
+				}
+			}
 		}
 	}
 	blob, _ := peBlob(s)
